@@ -7,19 +7,23 @@
 //
 // One case = one batch: a generated database, K sessions with programs of M statements each
 // (table queries from harness/sqlgen plus statements that read and write session-owned state),
-//   1. run alone: every program on its own fresh session, one after the other, on a fresh engine
-//      (twice: statements whose result is not reproducible even sequentially are replaced);
-//   2. run concurrently: K goroutines, one session each, on another fresh engine over the same
-//      data, every statement bracketed like server/handler.go does (ProcessList.BeginQuery …
-//      EndQuery), with a monitor goroutine sampling the shared registries;
-//   3. quiescence: counters, process list, table dumps, a second sequential run on the engine that
-//      served the concurrent phase.
+//  1. run alone: every program on its own fresh session, one after the other, on a fresh engine
+//     (twice: statements whose result is not reproducible even sequentially are replaced);
+//  2. run concurrently: K goroutines, one session each, on another fresh engine over the same
+//     data, every statement bracketed like server/handler.go does (ProcessList.BeginQuery …
+//     EndQuery), with a monitor goroutine sampling the shared registries;
+//  3. quiescence: counters, process list, table dumps, a second sequential run on the engine that
+//     served the concurrent phase.
+//
 // The Lean driver runs the interleaving model on the observed schedule (Impl model) and the
 // per-session sequential semantics (Spec); both must equal what the real sessions received.
 package main
 
 import (
+	"bufio"
+	"bytes"
 	"context"
+	"encoding/json"
 	"fmt"
 	"hash/fnv"
 	"io"
@@ -69,9 +73,9 @@ func (s *stmt) sexp() string {
 	}
 	switch s.Kind {
 	case "read":
-		return hx.List("read", s.Obs, b(s.Sel), strconv.Itoa(s.Warn), hx.HexS(s.SQL))
+		return hx.List("read", s.Obs, b(s.Sel), strconv.Itoa(s.Warn), b(s.resolvesInfoSchema()), hx.HexS(s.SQL))
 	case "vol":
-		return hx.List("vol", b(s.Sel), strconv.Itoa(s.Warn), hx.HexS(s.SQL))
+		return hx.List("vol", b(s.Sel), strconv.Itoa(s.Warn), b(s.resolvesInfoSchema()), hx.HexS(s.SQL))
 	case "setvar", "addvar":
 		return hx.List(s.Kind, hx.HexS(s.Var), strconv.FormatInt(s.K, 10))
 	case "getvar":
@@ -529,10 +533,8 @@ func raceSummaries(txt string) []string {
 				strings.HasPrefix(t, "Previous read at ")) && i+1 < len(lines) {
 				// first frame that is not in the Go runtime
 				for j := i + 1; j < len(lines) && strings.TrimSpace(lines[j]) != ""; j += 2 {
-					fn := strings.TrimSpace(lines[j])
-					if p := strings.Index(fn, "("); p > 0 {
-						fn = fn[:p]
-					}
+					fn := strings.TrimSuffix(strings.TrimSpace(lines[j]), "()")
+					fn = strings.TrimPrefix(fn, "github.com/dolthub/go-mysql-server/")
 					if strings.HasPrefix(fn, "runtime.") || strings.HasPrefix(fn, "sync.") || strings.HasPrefix(fn, "sync/atomic.") {
 						continue
 					}
@@ -565,13 +567,9 @@ func run(a hx.RunArgs) (err error) {
 		return fmt.Errorf("the C36 harness must be built with -race (props/C36.json \"race\": true)")
 	}
 	if os.Getenv("C36_CHILD") == "" {
-		cmd := exec.Command(os.Args[0], os.Args[1:]...)
-		cmd.Env = append(os.Environ(), "C36_CHILD=1", "GORACE=log_path="+a.OutDir+"/race halt_on_error=0 exitcode=0 history_size=3")
-		cmd.Stdout, cmd.Stderr = os.Stdout, os.Stderr
-		os.MkdirAll(a.OutDir, 0o755)
-		return cmd.Run()
+		return parent(a)
 	}
-	out := hx.NewOut(a.OutDir)
+	out := newSink(a.OutDir)
 	defer func() {
 		if p := recover(); p != nil {
 			if hb, ok := p.(harnessBug); ok {
@@ -582,10 +580,6 @@ func run(a hx.RunArgs) (err error) {
 		}
 		out.Close()
 	}()
-	out.Rule = "one case = one batch: a generated database (sqlgen), K sessions x M statements (table queries, catalog reads, failing statements, " +
-		"user-variable / current-database / session-status / warning statements, volatile registry reads), run alone and then concurrently " +
-		"(K goroutines, handler-style BeginQuery/EndQuery bracket, random yields, a monitor sampling the registries) under the race detector; " +
-		"a batch is non-trivial when the observed schedule switches sessions at least 4*K times, at least one table query returned rows and at least one session-state statement ran"
 
 	rl := &raceLog{path: fmt.Sprintf("%s/race.%d", a.OutDir, os.Getpid())}
 	canary()
@@ -594,19 +588,55 @@ func run(a hx.RunArgs) (err error) {
 	}
 
 	r := hx.NewRand(a.Seed).Fork()
-	nBatch, K, M := 24, 6, 10
+	nBatch, K, M := 10, 6, 10
 	if a.Thorough {
 		nBatch, K, M = 400, 8, 24
 	}
 	cfg := sqlgen.Default()
 	cfg.MaxRows = 12
 	g := sqlgen.NewGen(r.Fork(), cfg)
+	// corpus first: the witness of the listed finding (several sessions resolving information_schema
+	// tables at the same time) and a fixed mix of every statement kind
+	mk := func(kind, q string) *stmt { return &stmt{Kind: kind, SQL: q, Ordered: true} }
+	var wit, mix [][]*stmt
+	for s := 0; s < 6; s++ {
+		var p []*stmt
+		for j := 0; j < 3 && s < 4; j++ {
+			p = append(p, mk("read", "SELECT table_name FROM information_schema.tables WHERE table_schema IN ('d','d2') ORDER BY 1"),
+				mk("read", "SELECT COUNT(*) FROM information_schema.columns WHERE table_schema = 'd'"))
+		}
+		if s < 4 {
+			wit = append(wit, p)
+		}
+		mix = append(mix, []*stmt{
+			{Kind: "setvar", Var: "a", K: int64(s), SQL: fmt.Sprintf("SET @a = %d", s)},
+			mk("read", "SELECT * FROM d2.u0 ORDER BY a"),
+			{Kind: "addvar", Var: "a", K: 10, SQL: "SET @a = @a + 10"},
+			{Kind: "getvar", Var: "a", SQL: "SELECT @a"},
+			{Kind: "getvar", Var: "b", SQL: "SELECT @b"},
+			{Kind: "usedb", Db: []string{"d", "d2"}[s%2], SQL: "USE " + []string{"d", "d2"}[s%2]},
+			{Kind: "curdb", SQL: "SELECT DATABASE()"},
+			{Kind: "div0", SQL: "SELECT 1/0"},
+			{Kind: "showwarn", SQL: "SHOW WARNINGS"},
+			mk("read", "SELEC 1"),
+			{Kind: "showwarn", SQL: "SHOW WARNINGS"},
+			{Kind: "sq", SQL: "SHOW SESSION STATUS LIKE 'Questions'"},
+			{Kind: "scs", SQL: "SHOW SESSION STATUS LIKE 'Com_select'"},
+			mk("vol", "SHOW PROCESSLIST"),
+			mk("read", "SHOW TABLES"),
+		})
+	}
+	for _, fixed := range [][][]*stmt{wit, mix} {
+		if err := batch(a, out, rl, r.Fork(), g, K, M, fixed); err != nil {
+			return err
+		}
+	}
 	for b := 0; b < nBatch; b++ {
 		k, m := K, M
 		if b%5 == 4 {
 			k, m = 2*K, M/2
 		}
-		if err := batch(a, out, rl, r.Fork(), g, k, m); err != nil {
+		if err := batch(a, out, rl, r.Fork(), g, k, m, nil); err != nil {
 			return err
 		}
 	}
@@ -616,7 +646,7 @@ func run(a hx.RunArgs) (err error) {
 	return nil
 }
 
-func batch(a hx.RunArgs, out *hx.Out, rl *raceLog, r *hx.Rand, g *sqlgen.Gen, K, M int) error {
+func batch(a hx.RunArgs, out *sink, rl *raceLog, r *hx.Rand, g *sqlgen.Gen, K, M int, fixed [][]*stmt) error {
 	db := g.GenDb()
 	gc := &genCtx{r: r, g: g, db: db}
 	progs := make([][]*stmt, K)
@@ -626,7 +656,13 @@ func batch(a hx.RunArgs, out *hx.Out, rl *raceLog, r *hx.Rand, g *sqlgen.Gen, K,
 			progs[s] = append(progs[s], gc.stmt())
 		}
 	}
-	// 1. alone (twice; a statement that is not reproducible alone is not a usable reference)
+	if fixed != nil {
+		progs, K = fixed, len(fixed)
+	}
+	// 1. alone (twice). A table query that is not reproducible alone is not a usable reference and is
+	// replaced; a session-state statement whose result differs between the two runs means that session
+	// state leaks from one session (or engine) into the next: reported below, never replaced.
+	var leaks []string
 	w1 := newWorld(db)
 	for attempt := 0; ; attempt++ {
 		if attempt > 20 {
@@ -635,18 +671,21 @@ func batch(a hx.RunArgs, out *hx.Out, rl *raceLog, r *hx.Rand, g *sqlgen.Gen, K,
 		r1 := seqRun(w1, progs, 100)
 		r2 := seqRun(newWorld(db), progs, 100)
 		stable := true
+		leaks = nil
 		for s := range progs {
 			for j, st := range progs[s] {
 				o1, o2 := observation(st, r1[s][j]), observation(st, r2[s][j])
-				if o1 != o2 || r1[s][j].sel != r2[s][j].sel || r1[s][j].warn != r2[s][j].warn {
+				st.Obs, st.Sel, st.Warn = o1, r1[s][j].sel, r1[s][j].warn
+				differs := o1 != o2 || r1[s][j].sel != r2[s][j].sel || r1[s][j].warn != r2[s][j].warn
+				switch {
+				case differs && (st.Kind == "read" || st.Kind == "vol"):
 					out.Stat("replaced:not-reproducible-alone")
 					fmt.Fprintf(os.Stderr, "c36: not reproducible alone, replaced: %s\n", st.SQL)
 					progs[s][j] = &stmt{Kind: "getvar", Var: "a", SQL: "SELECT @a"}
 					stable = false
-					continue
-				}
-				st.Obs, st.Sel, st.Warn = o1, r1[s][j].sel, r1[s][j].warn
-				if r1[s][j].class == "crash" { // C10's subject; keep crashing statements out of this property's envelope
+				case differs:
+					leaks = append(leaks, fmt.Sprintf("session program %d statement %d %q run alone gives %s on one fresh engine and %s on another", s, j, st.SQL, o1, o2))
+				case r1[s][j].class == "crash": // C10's subject; keep crashing statements out of this property's envelope
 					out.Stat("replaced:crash-alone")
 					progs[s][j] = &stmt{Kind: "getvar", Var: "a", SQL: "SELECT @a"}
 					stable = false
@@ -660,6 +699,7 @@ func batch(a hx.RunArgs, out *hx.Out, rl *raceLog, r *hx.Rand, g *sqlgen.Gen, K,
 	// 2. concurrently, on a fresh engine over the same data
 	w := newWorld(db)
 	before := w.dump(db)
+	out.Pending(pendingPayload(K, progs))
 	cr := concRun(w, progs, r.Fork(), 100)
 
 	// payload
@@ -691,6 +731,7 @@ func batch(a hx.RunArgs, out *hx.Out, rl *raceLog, r *hx.Rand, g *sqlgen.Gen, K,
 		}
 	}
 	payload := fmt.Sprintf("(batch %d (progs %s) (sched %s))", K, strings.Join(ps, " "), strings.Join(sched, " "))
+	out.Pending("")
 
 	// observation of the real code
 	var obs string
@@ -713,8 +754,11 @@ func batch(a hx.RunArgs, out *hx.Out, rl *raceLog, r *hx.Rand, g *sqlgen.Gen, K,
 				out.Stat("class:" + cr.res[s][j].class)
 			}
 			ss = append(ss, fmt.Sprintf("(%s q=%d cs=%d)", strings.Join(os_, " "), cr.sessQ[s], cr.sessCS[s]))
+			if len(os_) == 0 {
+				ss[len(ss)-1] = fmt.Sprintf("(q=%d cs=%d)", cr.sessQ[s], cr.sessCS[s])
+			}
 		}
-		obs = fmt.Sprintf("%s Q=%d CS=%d running=%d connected=%d", strings.Join(ss, " "), cr.q, cr.cs, cr.running, cr.conn)
+		obs = fmt.Sprintf("%s Q=%d CS=%d running=%d", strings.Join(ss, " "), cr.q, cr.cs, cr.running)
 	}
 	id := out.Case(payload, obs, switches >= 4*K && rowsSeen && stateSeen)
 	out.Stat("batches")
@@ -728,6 +772,9 @@ func batch(a hx.RunArgs, out *hx.Out, rl *raceLog, r *hx.Rand, g *sqlgen.Gen, K,
 	}
 
 	// model-free oracle ---------------------------------------------------------------------
+	for _, l := range leaks {
+		out.OracleFail(id, "-", "session state is not private: "+l)
+	}
 	// (a) every statement returns what it returned when its session ran alone
 	for s := range progs {
 		for j, st := range progs[s] {
@@ -778,7 +825,10 @@ func batch(a hx.RunArgs, out *hx.Out, rl *raceLog, r *hx.Rand, g *sqlgen.Gen, K,
 		lo, hi := 0, 0
 		for s := range progs {
 			for _, e := range cr.res[s] {
-				if e.ticks[1] < sm.ta && e.ticks[3] > sm.tb {
+				// (the engine itself ends the query when the tracked iterator is exhausted or closed —
+				// sql/plan/process.go AddTrackedRowIter — so a statement is certainly "running" only
+				// between BeginQuery and the return of Engine.Query)
+				if e.ticks[1] < sm.ta && e.ticks[2] > sm.tb {
 					lo++
 				}
 				if e.ticks[0] < sm.tb && e.ticks[4] > sm.ta {
@@ -829,15 +879,46 @@ func batch(a hx.RunArgs, out *hx.Out, rl *raceLog, r *hx.Rand, g *sqlgen.Gen, K,
 	if txt := rl.fresh(); txt != "" {
 		for _, sum := range raceSummaries(txt) {
 			out.Stat("race-report")
-			out.OracleFail(id, raceRegion(sum), "data race: "+sum)
+			out.OracleFail(id, raceRegion(sum, progs), "data race: "+sum)
 		}
 		os.WriteFile(fmt.Sprintf("%s/race-batch-%s.txt", a.OutDir, id), []byte(txt), 0o644)
 	}
 	return nil
 }
 
-// raceRegion names the defect class of a race report (decided by where the racing accesses are).
-func raceRegion(summary string) string {
+// resolvesInfoSchema: the statement makes the planbuilder resolve an information_schema table
+// (planbuilder.buildResolvedTable then calls sql.CatalogTable.AssignCatalog on the shared table object).
+func (s *stmt) resolvesInfoSchema() bool {
+	return strings.Contains(strings.ToLower(s.SQL), "information_schema.")
+}
+
+// raceRegion names the defect class of a race report. The one listed class: both racing accesses
+// are methods of information_schema table types, one of them AssignCatalog, and at least two
+// sessions of the batch resolve information_schema tables. Everything else is unclassified.
+func raceRegion(summary string, progs [][]*stmt) string {
+	sessions := 0
+	for _, prog := range progs {
+		for _, st := range prog {
+			if st.resolvesInfoSchema() {
+				sessions++
+				break
+			}
+		}
+	}
+	parts := strings.Split(summary, " / ")
+	assign := false
+	for _, p := range parts {
+		f := strings.Fields(p)
+		if len(f) != 2 || !strings.HasPrefix(f[1], "sql/information_schema.(*") {
+			return "-"
+		}
+		if strings.HasSuffix(f[1], ").AssignCatalog") {
+			assign = true
+		}
+	}
+	if len(parts) == 2 && assign && sessions >= 2 {
+		return "infoschema_assign_catalog_race"
+	}
 	return "-"
 }
 
@@ -849,3 +930,122 @@ func trunc(s string, n int) string {
 }
 
 var _ = sqle.NewProcessList
+
+// ---------------------------------------------------------------------------------------------
+// Parent / child plumbing. The child (race detector options set) does the work and writes one JSON
+// line per event to <out>/events.jsonl, synced before every concurrent phase; the parent turns
+// them into cases.txt / impl.txt / oracle.txt / stats.json. When the child dies in the middle of a
+// batch (a Go runtime `fatal error` such as "concurrent map iteration and map write" cannot be
+// recovered), the batch it was running becomes a failing case.
+
+type event struct {
+	T       string `json:"t"` // case | fail | stat | pending
+	Payload string `json:"payload,omitempty"`
+	Obs     string `json:"obs,omitempty"`
+	NT      bool   `json:"nt,omitempty"`
+	ID      string `json:"id,omitempty"`
+	Tag     string `json:"tag,omitempty"`
+	Desc    string `json:"desc,omitempty"`
+	Key     string `json:"key,omitempty"`
+	N       int    `json:"n,omitempty"`
+}
+
+type sink struct {
+	f *os.File
+	n int
+}
+
+func newSink(dir string) *sink {
+	os.MkdirAll(dir, 0o755)
+	f, err := os.Create(dir + "/events.jsonl")
+	if err != nil {
+		panic(err)
+	}
+	return &sink{f: f}
+}
+
+func (s *sink) put(e event) {
+	b, _ := json.Marshal(e)
+	s.f.Write(append(b, '\n'))
+}
+func (s *sink) Case(payload, obs string, nt bool) string {
+	s.n++
+	s.put(event{T: "case", Payload: payload, Obs: obs, NT: nt})
+	return strconv.Itoa(s.n)
+}
+func (s *sink) OracleFail(id, tag, desc string) {
+	s.put(event{T: "fail", ID: id, Tag: tag, Desc: desc})
+}
+func (s *sink) Stat(key string)         { s.put(event{T: "stat", Key: key, N: 1}) }
+func (s *sink) StatN(key string, n int) { s.put(event{T: "stat", Key: key, N: n}) }
+func (s *sink) Pending(payload string)  { s.put(event{T: "pending", Payload: payload}); s.f.Sync() }
+func (s *sink) Close()                  { s.f.Sync(); s.f.Close() }
+
+func pendingPayload(K int, progs [][]*stmt) string {
+	var ps []string
+	for s := range progs {
+		ps = append(ps, hx.ListOf(progs[s], func(st *stmt) string { return st.sexp() }))
+	}
+	return fmt.Sprintf("(batch %d (progs %s) (sched))", K, strings.Join(ps, " "))
+}
+
+func parent(a hx.RunArgs) error {
+	os.MkdirAll(a.OutDir, 0o755)
+	cmd := exec.Command(os.Args[0], os.Args[1:]...)
+	cmd.Env = append(os.Environ(), "C36_CHILD=1", "GORACE=log_path="+a.OutDir+"/race halt_on_error=0 exitcode=0 history_size=3")
+	var errBuf bytes.Buffer
+	cmd.Stdout, cmd.Stderr = os.Stdout, io.MultiWriter(os.Stderr, &errBuf)
+	runErr := cmd.Run()
+
+	out := hx.NewOut(a.OutDir)
+	defer out.Close()
+	out.Rule = "one case = one batch: a generated database (sqlgen), K sessions x M statements (table queries, catalog reads, failing statements, " +
+		"user-variable / current-database / session-status / warning statements, volatile registry reads), run alone and then concurrently " +
+		"(K goroutines, handler-style BeginQuery/EndQuery bracket, random yields, a monitor sampling the registries) under the race detector; " +
+		"a batch is non-trivial when the observed schedule switches sessions at least 4*K times, at least one table query returned rows and at least one session-state statement ran"
+	f, err := os.Open(a.OutDir + "/events.jsonl")
+	if err != nil {
+		if runErr != nil {
+			return fmt.Errorf("child failed before writing events: %v", runErr)
+		}
+		return err
+	}
+	defer f.Close()
+	sc := bufio.NewScanner(f)
+	sc.Buffer(make([]byte, 1<<20), 1<<28)
+	pending := ""
+	for sc.Scan() {
+		var e event
+		if err := json.Unmarshal(sc.Bytes(), &e); err != nil {
+			continue // a torn last line of a child that died
+		}
+		switch e.T {
+		case "case":
+			out.Case(e.Payload, e.Obs, e.NT)
+		case "fail":
+			out.OracleFail(e.ID, e.Tag, e.Desc)
+		case "stat":
+			out.StatN(e.Key, e.N)
+		case "pending":
+			pending = e.Payload
+		}
+	}
+	if runErr == nil {
+		return nil
+	}
+	if pending == "" || strings.Contains(errBuf.String(), "harness defect:") || strings.Contains(errBuf.String(), "harness panic:") {
+		return fmt.Errorf("child failed (not while engine sessions ran concurrently, or by a harness defect): %v", runErr)
+	}
+	// the process died while the sessions of this batch were running concurrently
+	msg := "process died"
+	for _, ln := range strings.Split(errBuf.String(), "\n") {
+		if strings.HasPrefix(ln, "fatal error:") || strings.HasPrefix(ln, "panic:") {
+			msg = strings.TrimSpace(ln)
+			break
+		}
+	}
+	id := out.Case(pending, "died: "+msg, true)
+	out.OracleFail(id, "-", "the engine process died while the read-only sessions of this batch ran concurrently: "+msg)
+	out.Stat("child-died")
+	return nil
+}
